@@ -15,6 +15,7 @@ import (
 func scenarios(tier string) []engine.Scenario {
 	var scs []engine.Scenario
 	scs = append(scs, extProdScenarios(tier)...)
+	scs = append(scs, rgswAlgScenarios(tier)...)
 	return scs
 }
 
